@@ -126,10 +126,23 @@ def impl_sound(score):
     return out
 
 
-def load_score(text):
-    """rebuild a score from its text form (replay files store scores as text)"""
+def amps_of(score):
+    """the amplitude of every note in traversal order (the text form only keeps the nearest dynamics figure)"""
+    return [float(n.amp) for c in score.chords for m in c.score.values() for n in m.notes]
+
+
+def load_score(text, amps=None):
+    """rebuild a score from its text form (replay files store scores as text); `amps` restores amplitudes that the
+    text form cannot express"""
     from musiclang import Score, Chord
     s = Score.from_str(text)
     if isinstance(s, Chord):
         s = Score([s])
+    if amps:
+        it = iter(amps)
+        for c in s.chords:
+            for m in c.score.values():
+                for n in m.notes:
+                    a = next(it)
+                    n.amp = int(a) if float(a).is_integer() else a
     return s
